@@ -129,6 +129,10 @@ func parseRPMHeader(b []byte, off int) (*RPMHeader, error) {
 		if o < 0 || o > len(st) {
 			return nil, fmt.Errorf("rpm: tag %d offset %d outside store", e.Tag, o)
 		}
+		if e.Count == 0 {
+			// rpm's header check (hdrchkTag / hdrchkData) refuses an index entry without data
+			return nil, fmt.Errorf("rpm: tag %d (type %d) has count 0", e.Tag, e.Type)
+		}
 		need := func(n int) error {
 			if o+n > len(st) {
 				return fmt.Errorf("rpm: tag %d data exceeds store", e.Tag)
